@@ -510,6 +510,11 @@ func (fc *FnCtx) doInvoke(cc *ssa.CallCommon, args []Val, pos token.Pos, resT ty
 	recv := fc.operand(cc.Value)
 	it := cc.Value.Type()
 	mname := cc.Method.Name()
+	if fc.specDepth > 0 && fc.specDepth < 3 && len(args) == 0 && cc.Signature().Results().Len() == 1 {
+		// inside a specification-level method evaluation: stay deterministic (case split over the dynamic types)
+		env := &Env{fc: fc, pkg: fc.pkg, vars: map[string]Val{}, bound: map[string]Val{}, st: fc.cur, old: fc.cur}
+		return env.specMethod(recv, mname)
+	}
 	fc.oblige("nil", "invoke", not(eq(recv.L[0], bvLit(0, 16))), pos, "method call on nil interface")
 	ikey := fc.eng.ifaceMethodKey(it, mname)
 	anchor := "call " + strings.TrimPrefix(shortCallee(ikey), fc.pkg.Name()+".")
@@ -557,11 +562,35 @@ func (fc *FnCtx) doInvoke2(cc *ssa.CallCommon, recv Val, it types.Type, mname, i
 		ns.AddAll(fc.eng.summary(fn))
 	}
 	sealed := fc.eng.sealedIface(iface)
+	fw := newNameSet()
 	if !sealed {
-		foreignWrites(cc.Signature(), ns)
+		foreignWrites(cc.Signature(), fw)
+		ns.AddAll(fw)
 		fc.noteTrusted("foreign implementations of " + ikey + ": write only into []byte arguments, results unconstrained")
 	}
 	post := pre.havocked(ns)
+	// a name changes only if the dynamic type's implementation may write it
+	candSums := make([]*NameSet, len(cands))
+	candConds := make([]string, len(cands))
+	var knownTags []string
+	for i, cd := range cands {
+		candSums[i] = fc.eng.summary(cd.fn)
+		candConds[i] = eq(recv.L[0], fc.tagOf(cd.t))
+		knownTags = append(knownTags, candConds[i])
+	}
+	foreignCond := not(or(knownTags...))
+	post.havocCond = func(name string) string {
+		var cs []string
+		for i := range cands {
+			if candSums[i].Has(name) {
+				cs = append(cs, candConds[i])
+			}
+		}
+		if !sealed && fw.Has(name) {
+			cs = append(cs, foreignCond)
+		}
+		return or(cs...)
+	}
 	fc.cur = post
 	res := fc.freshValWF("r_"+mname, resT)
 	var known []string
@@ -880,9 +909,15 @@ func (fc *FnCtx) specialCall(callee *ssa.Function, args []Val, pos token.Pos, re
 	case "errors.New", "fmt.Errorf":
 		fc.noteTrusted(name + " returns a fresh non-nil error")
 		r := fc.freshValWF("err", resT)
-		fc.cur.assume(and(not(eq(r.L[0], bvLit(0, 16))), app("bvuge", r.L[0], bvLit(foreignTagBase, 16))))
-		if name == "fmt.Errorf" {
-			fc.errorfWraps(r, args)
+		ref := fc.allocRef()
+		fc.cur.assume(and(not(eq(r.L[0], bvLit(0, 16))), app("bvuge", r.L[0], bvLit(foreignTagBase, 16)), eq(r.L[1], ref)))
+		fc.declareFunOnce("unw_tag", "("+SortTag+" (_ BitVec 64)) "+SortTag)
+		fc.declareFunOnce("unw_pay", "("+SortTag+" (_ BitVec 64)) (_ BitVec 64)")
+		if name == "fmt.Errorf" && fc.errorfWraps(r, args) {
+			// unwrap relation set by errorfWraps
+		} else {
+			// no %w verb: the new error wraps nothing
+			fc.cur.assume(eq(app("unw_tag", r.L[0], r.L[1]), bvLit(0, 16)))
 		}
 		return r, true
 	case "errors.Is":
